@@ -215,7 +215,7 @@ func runPlanRules(c *Ctx, validity, timeRules bool) {
 			for _, rj := range rejects {
 				n := 0
 				for _, g := range deepFuncs(refresh) {
-					n += len(factEdges(g, rj))
+					n += factOccurrences(g, rj)
 				}
 				c.floor(rule, n, 1, "filter edge: "+rj.Desc)
 			}
@@ -310,8 +310,11 @@ func runPlanRules(c *Ctx, validity, timeRules bool) {
 		// R5: latest-state gap check.
 		const rule5 = "R5-gap-check"
 		ens := []ssa.CallInstruction{}
-		for _, call := range callsTo(plan, nameIs("(*ls.restoreLevelCursor).ensureCurrent")) {
-			ens = append(ens, call)
+		// (the per-cursor check may have been extracted: the site is then the helper's call)
+		for _, vs := range callSitesV(plan, nameIs("(*ls.restoreLevelCursor).ensureCurrent")) {
+			if at, ok := vs.At().(ssa.CallInstruction); ok {
+				ens = append(ens, at)
+			}
 		}
 		c.floor(rule5, len(ens), 1, "ensureCurrent calls (gap check loop) in CalcRestorePlan")
 		for _, call := range ens {
@@ -357,19 +360,34 @@ func runPlanRules(c *Ctx, validity, timeRules bool) {
 					witnessPath(c.P, plan, ret.Block(), cut)...)
 			}
 			// error result names the gap
-			errEdges := factEdges(plan, cmpFact(vFieldLoad("FileInfo.MinTXID", curFld), token.GTR, vPlusOne(vAny()), ""))
-			c.floor(rule5, len(errEdges), 1, "gap detection branch (current.MinTXID > currentMax+1)")
-			for _, e := range errEdges {
-				tgt := e.From.Succs[e.Succ]
-				rr := reachable(plan, tgt, nil)
-				bad := false
-				for _, ret := range succ {
-					if rr[ret.Block()] {
-						bad = true
-					}
+			nErrEdges := 0
+			for _, g := range deepFuncs(plan) {
+				errEdges := factEdges(g, cmpFact(vFieldLoad("FileInfo.MinTXID", curFld), token.GTR, vPlusOne(vAny()), ""))
+				nErrEdges += len(errEdges)
+				gsucc := succ
+				if g != plan {
+					gsucc = successReturns(g)
 				}
-				c.check(!bad, rule5, fnName(plan)+": a detected gap cannot reach a success return", c.pos(lastInstr(e.From)), "only error returns reachable", "a success return is reachable after a gap was detected")
+				for _, e := range errEdges {
+					tgt := e.From.Succs[e.Succ]
+					rr := reachable(g, tgt, nil)
+					bad := false
+					for _, ret := range gsucc {
+						if rr[ret.Block()] {
+							bad = true
+						}
+					}
+					if g != plan {
+						// the helper's error must fail the plan
+						if k, isCall := call.(ssa.CallInstruction); isCall && k.Common().StaticCallee() == g {
+							okF, _ := failStopOK(plan, k)
+							bad = bad || !okF
+						}
+					}
+					c.check(!bad, rule5, fnName(plan)+": a detected gap cannot reach a success return", c.pos(lastInstr(e.From)), "only error returns reachable", "a success return is reachable after a gap was detected")
+				}
 			}
+			c.floor(rule5, nErrEdges, 1, "gap detection branch (current.MinTXID > currentMax+1)")
 		}
 	}
 
